@@ -29,6 +29,7 @@ type PropSpec struct {
 		Run     string `json:"run"`   // test name regexp
 		Quick   string `json:"quick"` // value of GOVC_BOUND
 		Thorough string `json:"thorough"`
+		Race     bool   `json:"race"` // run under the race detector (falls back to a plain run where it is unavailable)
 	} `json:"bounded"`
 	TrustedBase []string `json:"trusted_base"`
 	NAClauses   []string `json:"na_clauses"`
@@ -284,8 +285,11 @@ func cmdCheck(args []string) int {
 		if *tier == "thorough" && b.Thorough != "" {
 			bound = b.Thorough
 		}
-		ok, out, cases, secs := runBounded(b.Pkg, b.Test, b.Run, bound, seed)
+		ok, out, cases, secs := runBounded(b.Pkg, b.Test, b.Run, bound, seed, b.Race)
 		rec := map[string]interface{}{"name": b.Name, "what": b.What, "bound": bound, "cases": cases, "seconds": secs, "label": "bounded (never counted as proved)", "passed": ok}
+		if b.Race {
+			rec["race_detector"] = "requested (go test -race; falls back to a plain run where the detector cannot be built)"
+		}
 		bounded = append(bounded, rec)
 		if !ok {
 			info := map[string]interface{}{"property": id, "obligation": b.Name + "#bounded", "clause": b.What, "bound": bound, "output": firstLines(out, 200), "status": "confirmed",
@@ -426,7 +430,20 @@ func finish(id, tier string, seed int, t0 time.Time, prop *PropSpec, all []*Obli
 }
 
 // runBounded runs a bounded stand-in: a Go test file from /verif/bounded injected into the package by overlay.
-func runBounded(pkg, testFile, run, bound string, seed int) (ok bool, output string, cases int, secs float64) {
+func runBounded(pkg, testFile, run, bound string, seed int, race bool) (ok bool, output string, cases int, secs float64) {
+	if race {
+		ok, output, cases, secs = runBounded1(pkg, testFile, run, bound, seed, true)
+		ran := strings.Contains(output, "--- FAIL") || strings.Contains(output, "WARNING: DATA RACE") || strings.Contains(output, "panic:") || strings.Contains(output, "fatal error:")
+		if ok || ran {
+			return
+		}
+		// the test binary was not built or did not start: the race detector cannot be used here (no cgo, no C
+		// compiler, no race runtime for the platform): the same run without it
+	}
+	return runBounded1(pkg, testFile, run, bound, seed, false)
+}
+
+func runBounded1(pkg, testFile, run, bound string, seed int, race bool) (ok bool, output string, cases int, secs float64) {
 	t0 := time.Now()
 	src := filepath.Join(verifDir, "bounded", testFile)
 	dir, _ := os.MkdirTemp("", "govcb")
@@ -435,7 +452,11 @@ func runBounded(pkg, testFile, run, bound string, seed int) (ok bool, output str
 	ob, _ := json.Marshal(ov)
 	ovf := filepath.Join(dir, "ov.json")
 	os.WriteFile(ovf, ob, 0o644)
-	cmd := exec.Command("go", "test", "-tags", "verif", "-overlay", ovf, "-v", "-vet=off", "-count=1", "-timeout", "600s", "-run", run, "./"+pkg)
+	args := []string{"test", "-tags", "verif", "-overlay", ovf, "-v", "-vet=off", "-count=1", "-timeout", "600s", "-run", run}
+	if race {
+		args = append(args, "-race")
+	}
+	cmd := exec.Command("go", append(args, "./"+pkg)...)
 	cmd.Dir = repoDir
 	cmd.Env = append(os.Environ(), "GOFLAGS=-mod=mod", "GOPROXY=off", "GOSUMDB=off", "GOTOOLCHAIN=local", "GOVC_BOUND="+bound, fmt.Sprintf("GOVC_SEED=%d", seed))
 	out, err := cmd.CombinedOutput()
